@@ -8,7 +8,7 @@ From V Require Import Base.UString Base.Json Model.SchemaTypes Model.PyBase Mode
 Import ListNotations.
 
 Lemma s_dedup_udedup l : s_dedup l = udedup l.
-Proof. induction l; simpl; congruence. Qed.
+Proof. induction l; simpl; auto. Qed.
 
 Lemma existsb_ext_in {A} (f g : A -> bool) l : (forall x, In x l -> f x = g x) -> existsb f l = existsb g l.
 Proof. induction l; simpl; intros H; auto. rewrite H, IHl; auto. Qed.
@@ -30,6 +30,46 @@ Proof. destruct x; simpl; intros H; try discriminate. subst; auto. Qed.
 Lemma constr_all_In g l k : constr_all g l = Ok tt -> In k l -> g k = Ok tt.
 Proof.
   induction l; simpl; intros H Hin; [tauto|]. inv_bind H. destruct a0. destruct Hin as [-> | Hin]; auto.
+Qed.
+
+(* ---- writing over the value of a property that is present ---- *)
+Lemma amem_aset_present {A} (key : ustring) (v : A) st p : amem key st = true -> amem p (aset key v st) = amem p st.
+Proof.
+  intros H. rewrite amem_aset. destruct (ustr_eqb p key) eqn:E; auto. apply ustr_eqb_eq in E. subst. auto.
+Qed.
+
+Lemma at_least_one_aset ps key v st : amem key st = true -> at_least_one ps (aset key v st) = at_least_one ps st.
+Proof.
+  intros H. unfold at_least_one. destruct ps; auto.
+  rewrite (existsb_ext_in _ (fun p => amem p st)); auto. intros x _. apply amem_aset_present. auto.
+Qed.
+
+Lemma eval_constr_aset pok fuel c st k key v :
+  constr_proved k = true -> ~ In key (constr_names c k) -> amem key st = true ->
+  eval_constr pok fuel c (aset key v st) k = eval_constr pok fuel c st k.
+Proof.
+  intros Hp Hn Hk. destruct fuel; auto. destruct k; simpl in Hp; try discriminate; simpl.
+  - apply at_least_one_aset; auto.
+  - apply at_least_one_aset; auto.
+  - rewrite (filter_ext_in' _ (fun p => amem p st)); auto. intros x _. apply amem_aset_present; auto.
+  - assert (E : depends_ok ps ds (aset key v st) = depends_ok ps ds st); [|rewrite E; auto].
+    unfold depends_ok. apply forallb_ext_in. intros p Hp'. apply forallb_ext_in. intros dp _.
+    rewrite !amem_aset_present by auto. unfold pget. rewrite alookup_aset_other; auto.
+    apply ustr_eqb_neq. intros ->. apply Hn. simpl. apply in_or_app. auto.
+  - rewrite at_least_one_aset by auto. rewrite amem_aset_present by auto. auto.
+  - auto.
+Qed.
+
+Lemma constr_all_ext g1 g2 l : (forall k, In k l -> g1 k = g2 k) -> constr_all g1 l = constr_all g2 l.
+Proof. induction l; simpl; intros H; auto. rewrite H, IHl; auto. Qed.
+
+Lemma defaulted_names_aset c key v st :
+  mem_ustr key (dconst_names c) = false -> defaulted_names c (aset key v st) = defaulted_names c st.
+Proof.
+  intros H. unfold defaulted_names. f_equal. apply filter_ext_in'. intros s Hs.
+  destruct (sdef s) eqn:Ed; auto. rewrite alookup_aset_other; auto.
+  apply ustr_eqb_neq. intros E. apply mem_ustr_false in H. apply H. unfold dconst_names.
+  rewrite <- E. apply in_map. apply filter_In. split; auto. rewrite Ed. auto.
 Qed.
 
 Section Constr.
@@ -121,9 +161,27 @@ Section Constr.
         apply existsb_exists in E'. destruct E' as [p [Hin Hp']].
         apply orb_true_iff. left. apply existsb_exists. exists p. split; [apply default_checked_sub; auto|].
         rewrite jhas_members; auto. apply Hn. apply in_or_app. auto.
-      + destruct (negb (amem (u "extensions") setting)) eqn:E2; try discriminate.
-        apply negb_false_iff in E2. rewrite jhas_members, E2 by auto. apply orb_true_r.
-      + destruct (negb (amem (u "extensions") setting)) eqn:E2; try discriminate.
-        apply negb_false_iff in E2. rewrite jhas_members, E2 by auto. apply orb_true_r.
+      + match type of H with (if ?b then _ else _) = _ => destruct b eqn:E2; try discriminate end.
+        apply negb_false_iff in E2. change (amem (u "extensions") setting = true) in E2.
+        rewrite jhas_members, E2 by auto. apply orb_true_r.
+      + match type of H with (if ?b then _ else _) = _ => destruct b eqn:E2; try discriminate end.
+        apply negb_false_iff in E2. change (amem (u "extensions") setting = true) in E2.
+        rewrite jhas_members, E2 by auto. apply orb_true_r.
+    - (* CSkipBaseCheck *) reflexivity.
   Qed.
 End Constr.
+
+(* the stored properties with the value of a present property written over *)
+Lemma facts_aset sp pok c sc key v setting :
+  facts sp pok c sc setting -> entry_ok sp pok sc key v -> amem key setting = true ->
+  (forall k, In k ((match cfamily c with FExt => [CAtLeastOneDefault] | _ => [] end) ++ ccons c) ->
+             constr_proved k = true /\ ~ In key (constr_names c k)) ->
+  facts sp pok c sc (aset key v setting).
+Proof.
+  intros (HInv & Hreq & Hdef & fuel & Hall) Hv Hk Hcons.
+  split; [apply Inv_aset; auto|]. split; [|split].
+  - intros s' Hs' Hr. rewrite amem_aset_present; auto.
+  - intros s Hs Hd. rewrite amem_aset_present; auto.
+  - exists fuel. rewrite <- Hall. apply constr_all_ext. intros k Hin.
+    destruct (Hcons k Hin). apply eval_constr_aset; auto.
+Qed.
